@@ -50,7 +50,7 @@ class _NoFold(Exception):
     pass
 
 
-def fold(node: ast.AST, env: dict):
+def fold(node: ast.AST, env: dict, env_defaults: bool = True):
     """Evaluate a module-level literal expression without importing anything. Understands literals, names already
     folded, + - * // % | & << on constants, unary minus/not, tuple/list/dict/set displays, `os.getenv(X) or D`,
     int()/bool()/str()/float()/max()/min() of folded arguments."""
@@ -61,17 +61,17 @@ def fold(node: ast.AST, env: dict):
             return env[node.id]
         raise _NoFold(node.id)
     if isinstance(node, ast.Tuple):
-        return tuple(fold(e, env) for e in node.elts)
+        return tuple(fold(e, env, env_defaults) for e in node.elts)
     if isinstance(node, ast.List):
-        return [fold(e, env) for e in node.elts]
+        return [fold(e, env, env_defaults) for e in node.elts]
     if isinstance(node, ast.Set):
-        return {fold(e, env) for e in node.elts}
+        return {fold(e, env, env_defaults) for e in node.elts}
     if isinstance(node, ast.Dict):
         if any(k is None for k in node.keys):
             raise _NoFold('**')
-        return {fold(k, env): fold(v, env) for k, v in zip(node.keys, node.values)}
+        return {fold(k, env, env_defaults): fold(v, env, env_defaults) for k, v in zip(node.keys, node.values)}
     if isinstance(node, ast.UnaryOp):
-        v = fold(node.operand, env)
+        v = fold(node.operand, env, env_defaults)
         if isinstance(node.op, ast.USub):
             return -v
         if isinstance(node.op, ast.Not):
@@ -80,7 +80,7 @@ def fold(node: ast.AST, env: dict):
             return +v
         raise _NoFold('unary')
     if isinstance(node, ast.BinOp):
-        a, b = fold(node.left, env), fold(node.right, env)
+        a, b = fold(node.left, env, env_defaults), fold(node.right, env, env_defaults)
         ops = {ast.Add: lambda: a + b, ast.Sub: lambda: a - b, ast.Mult: lambda: a * b, ast.FloorDiv: lambda: a // b,
                ast.Mod: lambda: a % b, ast.BitOr: lambda: a | b, ast.BitAnd: lambda: a & b, ast.LShift: lambda: a << b,
                ast.Div: lambda: a / b}
@@ -94,12 +94,14 @@ def fold(node: ast.AST, env: dict):
         # os.getenv('X') or D   -> D (environment unset is the documented default)
         for v in node.values:
             if _is_getenv(v):
+                if not env_defaults:
+                    raise _NoFold('getenv')
                 continue
-            return fold(v, env)
+            return fold(v, env, env_defaults)
         raise _NoFold('or')
     if isinstance(node, ast.Call) and isinstance(node.func, ast.Name) and node.func.id in ('int', 'bool', 'str', 'float', 'max', 'min', 'len') \
             and not node.keywords:
-        args = [fold(a, env) for a in node.args]
+        args = [fold(a, env, env_defaults) for a in node.args]
         try:
             return {'int': int, 'bool': bool, 'str': str, 'float': float, 'max': max, 'min': min, 'len': len}[node.func.id](*args)
         except Exception:
@@ -111,7 +113,7 @@ def _is_getenv(node):
     return isinstance(node, ast.Call) and U(node.func) in ('os.getenv', 'os.environ.get', 'getenv')
 
 
-def module_consts(mod: Module) -> dict:
+def module_consts(mod: Module, env_defaults: bool = True) -> dict:
     """Fold the module's top-level simple assignments in order (single-assignment names only)."""
     env: dict = {}
     counts: dict = {}
@@ -135,7 +137,7 @@ def module_consts(mod: Module) -> dict:
             if counts.get(name) != 1:
                 continue
             try:
-                env[name] = fold(st.value, env)
+                env[name] = fold(st.value, env, env_defaults)
             except _NoFold:
                 pass
             except Exception:
@@ -299,3 +301,69 @@ def conjuncts(test: ast.AST, polarity: bool = True) -> list[tuple[ast.AST, bool]
     if isinstance(t, ast.NamedExpr):
         return [(t, polarity)] + conjuncts(t.value, polarity)
     return [(t, polarity)]
+
+
+# ---------------------------------------------------------------------------- aliases of enclosing scopes (E3)
+
+def _simple_alias_rhs(v: ast.AST, known: dict | None = None) -> bool:
+    """Attribute chain rooted at a name, optionally ending in a pure no-argument method call (x.y.values())."""
+    if isinstance(v, ast.Call) and not v.args and not v.keywords and isinstance(v.func, ast.Attribute) \
+            and v.func.attr in ('values', 'items', 'keys'):
+        v = v.func.value
+    n = 0
+    while isinstance(v, ast.Attribute):
+        v = v.value
+        n += 1
+    return isinstance(v, ast.Name) and (n >= 1 or (known is not None and v.id in known))
+
+
+def outer_aliases(fn: ast.AST) -> dict[str, ast.AST]:
+    """Single-assignment simple aliases (`clients = self.clients`, `sendervs = senders.values()`) of the functions
+    that lexically enclose `fn`, resolved among themselves. A name that is assigned more than once anywhere in its
+    function (including by nested closures via nonlocal, loop targets, walrus) is not an alias."""
+    chain = []
+    for a in ancestors(fn):
+        if isinstance(a, (ast.FunctionDef, ast.AsyncFunctionDef)):
+            chain.append(a)
+    out: dict[str, ast.AST] = {}
+    for F in reversed(chain):
+        counts: dict[str, int] = {}
+        for n in ast.walk(F):
+            tg = []
+            if isinstance(n, ast.Assign):
+                tg = n.targets
+            elif isinstance(n, (ast.AugAssign, ast.AnnAssign, ast.NamedExpr)):
+                tg = [n.target]
+            elif isinstance(n, (ast.For, ast.AsyncFor)):
+                tg = [n.target]
+            elif isinstance(n, ast.comprehension):
+                tg = [n.target]
+            elif isinstance(n, (ast.With, ast.AsyncWith)):
+                tg = [i.optional_vars for i in n.items if i.optional_vars is not None]
+            elif isinstance(n, ast.ExceptHandler) and n.name:
+                counts[n.name] = counts.get(n.name, 0) + 1
+            elif isinstance(n, ast.arg) and n is not None:
+                counts[n.arg] = counts.get(n.arg, 0) + 1
+            for t in tg:
+                for x in ast.walk(t):
+                    if isinstance(x, ast.Name) and isinstance(x.ctx, ast.Store):
+                        counts[x.id] = counts.get(x.id, 0) + 1
+        for st in F.body:
+            if isinstance(st, ast.Assign) and len(st.targets) == 1 and isinstance(st.targets[0], ast.Name) \
+                    and counts.get(st.targets[0].id) == 1 and _simple_alias_rhs(st.value, out):
+                out[st.targets[0].id] = _subst(st.value, out)
+            elif isinstance(st, ast.Assign) and len(st.targets) == 2 and all(isinstance(t, ast.Name) for t in st.targets) \
+                    and all(counts.get(t.id) == 1 for t in st.targets) and _simple_alias_rhs(st.value, out):
+                for t in st.targets:
+                    out[t.id] = _subst(st.value, out)
+    return out
+
+
+def _subst(node: ast.AST, env: dict) -> ast.AST:
+    # re-parse instead of deepcopy: nodes of the module tree carry parent links
+    fresh = ast.parse(ast.unparse(node), mode='eval').body
+
+    class T(ast.NodeTransformer):
+        def visit_Name(self, n):
+            return env[n.id] if n.id in env and isinstance(n.ctx, ast.Load) else n
+    return T().visit(fresh)
